@@ -66,3 +66,19 @@ func corpusGraph() []*modSpec {
 		mk("graph-pointer-fields", "package models\n\ntype S struct {\n\tP *int\n\tQ *S\n\tR []*S\n\tT **string\n}\n"),
 	}
 }
+
+func corpusFields() []*modSpec {
+	mk := func(name, src string, extra ...modFile) *modSpec {
+		return &modSpec{Name: name, ModPath: "example.com/org/models", Target: "models.go",
+			Files: append([]modFile{{"models.go", src}}, extra...)}
+	}
+	return []*modSpec{
+		mk("tags-omitempty", "package models\n\ntype Inner struct{ Z int }\n\ntype T struct {\n\tID int64\n\tA int `json:\"x,omitempty\"`\n\tB string `json:\",omitempty\"`\n\tC bool `json:\"c\"`\n\tD Inner `json:\"d,omitempty\"`\n}\n\ntype Table struct {\n\tId int64\n\tData T\n}\n"),
+		mk("tags-dash", "package models\n\ntype T struct {\n\tA int `json:\"-\"`\n\tB int `json:\"-,\"`\n\tC int `gomacro:\"ignore\"`\n\td int\n\tE int `xml:\"e\" json:\"ee\"`\n\tF int `json:\"ff\" xml:\"f\"`\n}\n\ntype Table struct {\n\tId int64\n\tData T\n}\n"),
+		mk("tags-embedded", "package models\n\ntype Base struct {\n\tID int64\n\tName string `json:\"name\"`\n}\n\ntype T struct {\n\tBase\n\tExtra int\n}\n\ntype Table struct {\n\tId int64\n\tData T\n}\n"),
+		mk("tags-embedded-tagged", "package models\n\ntype Inner struct{ A int }\n\ntype T struct {\n\tInner `json:\"inner\"`\n\tB int\n}\n\ntype Table struct {\n\tId int64\n\tData T\n}\n"),
+		mk("tags-embedded-conflict", "package models\n\ntype X struct{ A int; B int }\ntype Y struct{ A int; C int }\n\ntype T struct {\n\tX\n\tY\n}\n\ntype Table struct {\n\tId int64\n\tData T\n}\n"),
+		mk("tags-opaque", "package models\n\ntype R struct{ Children []R }\n\ntype T struct {\n\tF1 R `gomacro-opaque:\"dart\"`\n\tF2 R `gomacro-opaque:\"dart, typescript\"`\n\tF3 R `gomacro-opaque:\" typescript\"`\n\tF4 int `json:\"f4\" gomacro-opaque:\"typescript\"`\n}\n\ntype Table struct {\n\tId int64\n\tData T\n}\n"),
+		mk("tags-invalid-name", "package models\n\ntype T struct {\n\tA int `json:\"a\\\\b\"`\n\tB int `json:\"ok\"`\n}\n"),
+	}
+}
